@@ -10,6 +10,9 @@ void h_gstrs_perm(void) {
   __CPROVER_assert(0, "canary: gstrs returns");
   if (in_trans == NOTRANS && in_L.nrow == CAP && in_B.ncol == 2 && in_perm_r[0] != in_perm_c[0] && in_perm_r[0] != 0) __CPROVER_assert(0, "canary: no transpose, full order, two right-hand sides, non-trivial permutations");
   if (in_trans == TRANS && in_L.nrow == CAP && in_B.ncol == 2 && in_perm_r[1] != in_perm_c[1] && in_perm_c[0] != 0) __CPROVER_assert(0, "canary: transpose, full order, two right-hand sides, non-trivial permutations");
+#if CONJ_ACCEPTED
+  if (in_trans == CONJ && in_L.nrow == CAP && in_B.ncol == 2 && in_perm_r[1] != in_perm_c[1]) __CPROVER_assert(0, "canary: conjugate transpose accepted");
+#endif
   if (in_L.nrow == 0) __CPROVER_assert(0, "canary: order 0");
   if (in_B.ncol == 0) __CPROVER_assert(0, "canary: no right-hand side");
   if (in_Bstore.lda > in_L.nrow && in_B.ncol == 2) __CPROVER_assert(0, "canary: padded leading dimension");
